@@ -1,6 +1,7 @@
 /- Driver handlers for the `crc` stream. -/
 import SevenZ.Driver.Util
 import SevenZ.Model.Crc32
+import SevenZ.Model.Crash
 namespace SevenZ.Driver
 open SevenZ
 
@@ -8,6 +9,7 @@ def crcHandler (op : String) (args : List String) : Option String :=
   match op, args with
   | "crc.u", [v, hx] => do pure (toString (crc32Update (← v.toNat?) (← parseHex hx)))
   | "crc.c", [v, bs, hx] => do pure (toString (Impl.calculateCrc32 (← parseHex hx) (← v.toNat?) (← bs.toNat?)))
+  | "crash.ok", [hx] => do pure (if Impl.startHeaderOk (← parseHex hx) then "1" else "0")
   | _, _ => none
 
 end SevenZ.Driver
